@@ -55,3 +55,10 @@ Definition CFGraph_add_edge (self_graph : dictD) (self_vertex_total_valence : di
   let self_vertex_total_valence := d_set v2 (t11_ + valence) self_vertex_total_valence in
   let self_total_valence := (self_total_valence + valence) in
   PyOk (self_graph, self_vertex_total_valence, self_total_valence) end end end end end.
+
+(* chipfiring/CFGraph.py :: CFGraph.add_edges   reads ['self_graph', 'self_vertex_total_valence', 'self_total_valence'], writes ['self_graph', 'self_vertex_total_valence', 'self_total_valence'], may raise *)
+Definition CFGraph_add_edges (self_graph : dictD) (self_vertex_total_valence : dictZ) (self_total_valence : Z) (edges : list (nat * nat * Z)) : pyres (dictD * dictZ * Z) (dictD * dictZ * Z) :=
+  match fold_left (fun acc_ kv_ => match acc_ with PyExn e_ => PyExn e_ | PyOk (self_graph, self_vertex_total_valence, self_total_valence) => let '(v1_name, v2_name, valence) := kv_ in
+  match CFGraph_add_edge self_graph self_vertex_total_valence self_total_valence v1_name v2_name valence with PyExn (self_graph, self_vertex_total_valence, self_total_valence) => PyExn (self_graph, self_vertex_total_valence, self_total_valence) | PyOk (self_graph, self_vertex_total_valence, self_total_valence) =>
+  PyOk (self_graph, self_vertex_total_valence, self_total_valence) end end) edges (PyOk (self_graph, self_vertex_total_valence, self_total_valence)) with PyExn e_ => PyExn e_ | PyOk (self_graph, self_vertex_total_valence, self_total_valence) =>
+  PyOk (self_graph, self_vertex_total_valence, self_total_valence) end.
